@@ -231,7 +231,9 @@ namespace Pistache::Http::Mime
                 cursor.advance(1);
             }
 
-            else if (match_literal('q', cursor))
+            // only the parameter named exactly "q" is the quality value; other
+            // parameters whose name starts with a 'q' are ordinary parameters
+            else if (cursor.next() == '=' && match_literal('q', cursor))
             {
 
                 if (cursor.eof())
